@@ -110,6 +110,7 @@ def _sign_values(self, d, z):
 
 @contract(T + "sign_with_recid")
 class sign_with_recid:
+    slow_canaries = True
     props = ["C01"]
     sig = dict(self=GEN, secret_exponent=Int(1), val=Int(1, 2 ** 256 - 1), gen_k=Const(None))
     returns = Tup(Int(), Int(), Int())
